@@ -112,7 +112,16 @@ def cmd_property(prop, a):
                                             note="minimised with %d executions from %d to %d bytes" % (
                                                 execs, core.plan_size(plan), core.plan_size(small)))
             ok, dg2, out = core.replay_fresh(replay_path, hashseed="0")
-            if not ok or dg2 != res["digest"]:
+            threaded = res.get("probes", {}).get("sched_points", 0) > 0
+            if ok and dg2 != res["digest"] and threaded:
+                # the code under test runs worker threads: the interpreter, not the simulator, decides their interleaving,
+                # so only the violation (property and oracle tag) is reproducible, not the exact history
+                print("  replayed in a fresh interpreter: same violation tag; the history digest differs (%s vs %s) because the "
+                      "tree under test uses threads, which the simulator can perturb but not schedule" % (dg2, res["digest"]))
+                print("  %s" % vv[0]["detail"][:600])
+                print("VIOLATION property=%s replay=%s" % (prop, replay_path), flush=True)
+                status = EXIT_VIOLATION
+            elif not ok or dg2 != res["digest"]:
                 print("HARNESS-ERROR replay of %s did not reproduce in a fresh interpreter (reproduced=%s digest %s vs %s)\n%s" % (
                     replay_path, ok, dg2, res["digest"], out[-2000:]))
                 status = EXIT_HARNESS
